@@ -290,6 +290,33 @@ fn enumerate(tier: Tier, idx: u32, of: u32, cx: &mut Cx) -> CaseResult {
     }
     cx2.labels.clear();
     crate::engine::force_remove(&sub);
+
+    // One very large file between small ones (see probes.rs), killed before the last block
+    // is written (thorough: and before the tail).
+    let (opts, tree) = crate::probes::huge_file_tree();
+    let sc = Scenario { initial: tree, prefix: vec![], edits: vec![], opts, id_spread: 1, headless_band: 0 };
+    let sub = cx.dir("huge-file");
+    std::fs::create_dir_all(sub.join("r")).unwrap();
+    let cx3 = crate::engine::sub_cx(cx, sub.clone());
+    let base = Base::build(&sub, &sc);
+    crate::engine::heartbeat();
+    let trace = base.backup_trace(sc.opts);
+    let last_block = trace.iter().rev().find(|l| l.key.verb == V::Write && l.key.path.starts_with("d/")).map(|l| l.key.clone());
+    let mut points: Vec<(Key, bool)> = last_block.into_iter().map(|k| (k, false)).collect();
+    if tier == Tier::Thorough {
+        points.push((key(V::Write, "b0000/BANDTAIL"), false));
+    }
+    for (k, torn) in points {
+        crate::engine::heartbeat();
+        check_point(&base, &sc, &cx3, &k, torn, &mut n).map_err(|mut f| {
+            f.signature = format!("{}/probe-huge-file", f.signature);
+            f.inner = json!((k, torn));
+            f
+        })?;
+        cx.add_evals(1);
+        cx.inner_nontrivial += 1;
+    }
+    crate::engine::force_remove(&sub);
     Ok(())
 }
 
@@ -297,7 +324,7 @@ pub fn prop() -> Prop<Scenario> {
     Prop {
         id: "C03",
         level: "fault_enumeration",
-        rule: "scenario = (initial tree, history prefix of <=3 ops incl. interrupted backups/deletes, edits, options biased to small blocks/hunks) generated by proptest; inner domain enumerated per scenario: every crash point of the logged storage trace of the backup with a distinct outcome = 'storage frozen before mutating operation k' for every mutating k, plus for every write the torn variant (empty file left at the target); quick tier thins to <=80 evenly spaced points per scenario, thorough takes all. Oracle per point: archive opens; every previously complete version restores exactly; independent decoder finds no dangling/short address in any band; if the new head exists the version is listed, not closed, its own entries are a path-order prefix of the new source with the new bytes, its listing equals the stitching rule entry-for-entry and continues with the previous listing after the last recorded path, restore gives the recorded bytes for every file whose ancestors are directories; a follow-up backup succeeds and restores exactly. Non-trivial = crash after the first block write and before the tail write, or any torn write; counted per (scenario, point), distinct by construction. Fixed scale probe per run: a backup writing 10 015 index hunks, killed before the second index sub-directory is created and (torn) while its first hunk is written (thorough: also hunks 9 999, 10 001 and the tail)",
+        rule: "scenario = (initial tree, history prefix of <=3 ops incl. interrupted backups/deletes, edits, options biased to small blocks/hunks) generated by proptest; inner domain enumerated per scenario: every crash point of the logged storage trace of the backup with a distinct outcome = 'storage frozen before mutating operation k' for every mutating k, plus for every write the torn variant (empty file left at the target); quick tier thins to <=80 evenly spaced points per scenario, thorough takes all. Oracle per point: archive opens; every previously complete version restores exactly; independent decoder finds no dangling/short address in any band; if the new head exists the version is listed, not closed, its own entries are a path-order prefix of the new source with the new bytes, its listing equals the stitching rule entry-for-entry and continues with the previous listing after the last recorded path, restore gives the recorded bytes for every file whose ancestors are directories; a follow-up backup succeeds and restores exactly. Non-trivial = crash after the first block write and before the tail write, or any torn write; counted per (scenario, point), distinct by construction. Fixed scale probe per run: a backup writing 10 015 index hunks, killed before the second index sub-directory is created and (torn) while its first hunk is written (thorough: also hunks 9 999, 10 001 and the tail); and a backup of one 272 MiB file between small ones killed before its last block write (thorough: and before the tail)",
         assumptions: &[
             "a crash is modelled at transport-operation granularity: the storage becomes inert (every later operation fails without effect); stopping before a non-mutating operation leaves the same directory as stopping before the next mutating one, so only mutating points are enumerated",
             "torn write = zero-length file at the target; partial content and fsync ordering are not modelled",
